@@ -414,6 +414,9 @@ pub enum Plan {
     Tag,
     /// c classes (position = 5*class, tag = class+1)
     Cluster(u8),
+    /// one home 17 buckets before the end of the table, whatever its size: the first probe window fits, the
+    /// next one wraps around the end of the control bytes
+    Back,
     /// positions 2^k-3.. (wrap-around region): position = !0 - (id % 3), tag fixed
     Last,
     /// positions spread over the last 15 buckets (runs that wrap around the end): position = !0 - (id % 15)
@@ -465,6 +468,7 @@ impl Plan {
                     let cl = i % c as u64;
                     mk_hash(5 * cl, cl as u8 + 1)
                 }
+                Plan::Back => mk_hash((u64::MAX >> 7) - 16, 0x2b),
                 Plan::Last => mk_hash((u64::MAX >> 7) - (i % 3), 0x2a),
                 Plan::Tail => mk_hash((u64::MAX >> 7) - (i % 15), 0x2a),
                 Plan::Mid => mk_hash(3 | ((i + 1) << 24), 0x09),
